@@ -264,6 +264,51 @@ class AddLayer(Command):
         self.viewer.remove_layer(self.layer)
 
 
+def _record_subsets(cmd, session):
+    """
+    Record what a command that modifies or creates subsets needs for its undo
+    """
+    dc = cmd.data_collection
+    cmd.old_states = {}
+    for data in dc:
+        for subset in data.subsets:
+            cmd.old_states[subset] = subset.subset_state
+    cmd.old_groups = dict((group, group.subset_state) for group in dc.subset_groups)
+    cmd.old_sg_count = dc._sg_count
+    mode = getattr(session, 'edit_subset_mode', None)
+    cmd.old_edit_subset = None if mode is None else mode.edit_subset
+
+
+def _restore_subsets(cmd, session):
+    """
+    Undo the effect of a command on the subsets of its data collection
+    """
+    dc = cmd.data_collection
+
+    # Subset groups created by the command are removed as a whole (including
+    # from datasets added since), and are numbered again on redo
+    for group in dc.subset_groups:
+        if group not in cmd.old_groups:
+            dc.remove_subset_group(group)
+    dc._sg_count = cmd.old_sg_count
+
+    # Stand-alone subsets created by the command are deleted
+    for data in dc:
+        for subset in data.subsets:
+            if subset not in cmd.old_states and getattr(subset, 'group', None) not in cmd.old_groups:
+                subset.delete()
+
+    for group, state in cmd.old_groups.items():
+        group.subset_state = state
+    for subset, state in cmd.old_states.items():
+        if getattr(subset, 'group', None) not in cmd.old_groups:
+            subset.subset_state = state
+
+    mode = getattr(session, 'edit_subset_mode', None)
+    if mode is not None:
+        mode.edit_subset = cmd.old_edit_subset
+
+
 class ApplyROI(Command):
     """
     Apply an ROI to a data collection, updating subset states
@@ -281,21 +326,11 @@ class ApplyROI(Command):
     label = 'apply ROI'
 
     def do(self, session):
-        self.old_states = {}
-        for data in self.data_collection:
-            for subset in data.subsets:
-                self.old_states[subset] = subset.subset_state
-
+        _record_subsets(self, session)
         self.apply_func(self.roi)
 
     def undo(self, session):
-        for data in self.data_collection:
-            for subset in data.subsets:
-                if subset not in self.old_states:
-                    subset.delete()
-
-        for k, v in self.old_states.items():
-            k.subset_state = v
+        _restore_subsets(self, session)
 
 
 class ApplySubsetState(Command):
@@ -316,10 +351,7 @@ class ApplySubsetState(Command):
 
     def do(self, session):
 
-        self.old_states = {}
-        for data in self.data_collection:
-            for subset in data.subsets:
-                self.old_states[subset] = subset.subset_state
+        _record_subsets(self, session)
 
         mode = session.edit_subset_mode
         override_mode = self.extra.get('override_mode')
@@ -332,13 +364,7 @@ class ApplySubsetState(Command):
         mode.update(self.data_collection, self.subset_state, override_mode=override_mode)
 
     def undo(self, session):
-        for data in self.data_collection:
-            for subset in data.subsets:
-                if subset not in self.old_states:
-                    subset.delete()
-
-        for k, v in self.old_states.items():
-            k.subset_state = v
+        _restore_subsets(self, session)
 
 
 class LinkData(Command):
